@@ -1373,7 +1373,7 @@ def trinterp(start, end, s=None):
 
         return base.rt2tr(base.q2r(qr), pr)
     else:
-        return ValueError('Argument must be SO(3) or SE(3)')
+        raise ValueError('Argument must be SO(3) or SE(3)')
 
 
 def delta2tr(d):
